@@ -2,6 +2,9 @@ package main
 
 import (
 	"fmt"
+	"github.com/pdok/texel/mathhelp"
+	"math"
+	"math/big"
 	"sort"
 	"strings"
 
@@ -226,7 +229,7 @@ func (e *env) routeCase(c routeCase, stream string) {
 
 func checkC02(e *env) {
 	r := e.res
-	r.Rule = "li: every segment with endpoints in {-1..5}^2 (units of half a pixel side 2) against 5 boxes (exhaustive), plus random segments with coordinates up to 2^60; " +
+	r.Rule = "li: every segment with endpoints in {-1..5}^2 (units of half a pixel side 2) against 5 boxes (exhaustive), plus random segments with coordinates up to 2^60; cmp: mathhelp.CmpProducts and FloorDiv on factors around every power of two up to 2^62 against math/big; " +
 		"route: segments with endpoints on the quarter-pixel lattice of a 3x3-pixel window x subsets of its 9 pixels as hot set, for 3 placements of the window in a depth-5 grid " +
 		"(quick: sampled; thorough: exhaustive), plus random segments/hot sets on deeper grids and non-zero origins, endpoints forced onto borders and corners. " +
 		"snap: valid polygons through the real SnapPolygon; where the model's routed chains (op chains) visit no pixel centre twice, the result must be exactly those chains (one polygon, shell first, orientation as normalised, reversed under the flag). Non-trivial = a tie class is hit (endpoint on a pixel border/corner, edge along a border, edge through a corner of a hot pixel) or at least two pixels are routed; distinct by op text."
@@ -271,6 +274,48 @@ func checkC02(e *env) {
 		liCase(e, L, B, "li-large")
 	}
 	e.flush()
+	// ---- the integer helpers under the pixel test and the address arithmetic, against math/big: factors around every power of two up to 2^62
+	// (products just below and above 2^63, 2^64, 2^126), mixed signs, zeros; FloorDiv with remainders and quotients of every sign
+	edge := func() int64 {
+		k := uint(e.rng.Intn(63))
+		v := int64(1)<<k + int64(e.rng.Intn(5)) - 2
+		if e.rng.Intn(4) == 0 {
+			v = e.rng.Int63n(int64(1)<<k + 1)
+		}
+		if e.rng.Intn(2) == 0 {
+			v = -v
+		}
+		if e.rng.Intn(40) == 0 {
+			v = 0
+		}
+		return v
+	}
+	for i := 0; i < e.n(40000, 2000000); i++ {
+		a, b, c, d := edge(), edge(), edge(), edge()
+		if e.rng.Intn(3) == 0 { // products close to each other
+			c, d = b, a+int64(e.rng.Intn(3))-1
+		}
+		got := mathhelp.CmpProducts(a, b, c, d)
+		l := new(big.Int).Mul(big.NewInt(a), big.NewInt(b))
+		want := l.Cmp(new(big.Int).Mul(big.NewInt(c), big.NewInt(d)))
+		r.count("cmp", fmt.Sprintf("cmp %d %d %d %d", a, b, c, d), true)
+		if got != want {
+			r.violation(Violation{Oracle: "CmpProducts-is-the-sign-of-the-difference-of-the-products", Op: fmt.Sprintf("CmpProducts(%d, %d, %d, %d)", a, b, c, d), Impl: fmt.Sprint(got), Detail: fmt.Sprintf("exact: %d", want)})
+		}
+		n, dd := edge(), edge()
+		if dd == 0 || (n == math.MinInt64 && dd == -1) {
+			continue
+		}
+		q := mathhelp.FloorDiv(n, dd)
+		fq := new(big.Int).Div(big.NewInt(n), big.NewInt(dd)) // Euclidean
+		if dd < 0 && new(big.Int).Mod(big.NewInt(n), big.NewInt(dd)).Sign() != 0 {
+			fq.Sub(fq, big.NewInt(1)) // Euclidean division rounds up for a negative divisor with a remainder: the floor is one less
+		}
+		r.count("cmp", fmt.Sprintf("floordiv %d %d", n, dd), true)
+		if fq.Cmp(big.NewInt(q)) != 0 {
+			r.violation(Violation{Oracle: "FloorDiv-rounds-towards-minus-infinity", Op: fmt.Sprintf("FloorDiv(%d, %d)", n, dd), Impl: fmt.Sprint(q), Detail: "exact floor: " + fq.String()})
+		}
+	}
 	// ---- route: 3x3-pixel windows in a depth-5 grid, quarter-pixel lattice
 	const depth = 5
 	placements := [][2]int64{{9, 9}, {15, 15}, {0, 0}, {29, 29}} // inside a level-3 quadrant, straddling the root centroid, at the two grid corners
